@@ -2,7 +2,8 @@
 # Runs every check of the given tier on the current tree, validates each evidence file against the schema.
 # usage: tools/runall.sh [quick|thorough]   (honours VERIF_SEED)
 T=${1:-quick}
-cd /verif
+cd "$(dirname "$0")/.."
+V=$(pwd); mkdir -p out
 for i in $(seq -w 1 20); do
   p=C$i
   s=$(date +%s.%N)
@@ -11,7 +12,7 @@ for i in $(seq -w 1 20); do
   v=$(python3-vt -c "
 import json,jsonschema,sys
 try:
-    jsonschema.validate(json.load(open('/verif/evidence/$p.json')),json.load(open('/root/.vp/EVIDENCE.schema.json'))); print('evidence-ok')
+    jsonschema.validate(json.load(open('$V/evidence/$p.json')),json.load(open('/root/.vp/EVIDENCE.schema.json'))); print('evidence-ok')
 except Exception as ex: print('EVIDENCE-INVALID', str(ex)[:100])" 2>&1 | grep -v conda)
   printf "%s %s exit=%d %5.1fs %s | %s\n" $p $T $rc $(echo "$e - $s" | bc) "$v" "$(tail -1 out/runall-$p.log | cut -c1-120)"
 done
